@@ -51,6 +51,20 @@ CHECKS["C14"] = dict(
           "==, is None, truthiness assumed for them); get_fluid(net).name is a string; deepcopy returns a fresh equal value."),
     ref="DESIGN.md section 4 C14")
 
+CHECKS["C05"] = dict(
+    engine="E1",
+    technique="contract-based deductive verification: VCs in z3's IEEE Float64 theory generated from the AST of hydraulics/heat_transfer/bidirectional with newton_raphson and finalize_iteration inlined (last-iteration loop rule), shape contracts of the solve functions from their return statements, path-ordering obligations on pipeflow",
+    text=("Every stage function is proved to return normally only if net.converged holds and, in the last Newton iteration, "
+          "the change of EVERY unknown returned by the stage's solve function and every residual entry were non-NaN and "
+          "within the tolerance in force (and alpha == 1 under automatic damping); every other exit raises "
+          "PipeflowNotConverged with net.converged False; pipeflow re-initialises all result tables to NaN before any "
+          "failing stage and writes results only after all stages returned."),
+    note=(TB + "IEEE semantics of comparisons, abs, subtraction and np.max exact (A2/A4: np.max propagates NaN), float64 * and / "
+          "uninterpreted; loop rule: final state = entry state or one body execution from a havocked state satisfying the "
+          "loop condition and niter >= 0; rerun_hydraulics/rerun_heat_transfer by partial-correctness contract (termination "
+          "of the rerun recursion not verified); finite derived result columns only under A1."),
+    ref="DESIGN.md section 4 C05")
+
 NOT_APPLICABLE = {
     "C08": "uniqueness of the solution of the nonlinear system within tolerances and convergence of damped Newton in floating point: a whole-history/analytic property, no pre/post contract within reach expresses it (DESIGN.md section 5)",
     "C15": "the save/load round trip is the behaviour of pandapower/pandas/json/pickle/scipy object state; a contract strong enough would have to assume the property (DESIGN.md section 5)",
